@@ -32,7 +32,9 @@ def main():
         env["RUSTFLAGS"] = "-Zsanitizer=address -Cforce-frame-pointers=yes"
         env["CARGO_TARGET_DIR"] = os.path.join(common.WORK, "target-gendrv-asan-quick")
         common.sh(["cargo", "+nightly", "build", "--offline", "--target", "x86_64-unknown-linux-gnu"], cwd=d, env=env, timeout=3600)
-        print("built AddressSanitizer target", flush=True)
+        env["CARGO_TARGET_DIR"] = os.path.join(common.WORK, "target-asan")
+        common.sh(["cargo", "+nightly", "build", "--offline", "-p", "vecmon", "--target", "x86_64-unknown-linux-gnu"], cwd=common.HARNESS, env=env, timeout=1800)
+        print("built AddressSanitizer targets", flush=True)
     except common.Inconclusive as e:
         print("Miri pre-build skipped:", e)
     # the evidence file written by Ctx's constructor side effects is not wanted
